@@ -399,8 +399,12 @@ class AsyncFIXConnection:
         """Heartbeat watcher task."""
         while True:
             try:
-                if not self._socket_writer or not self._socket_reader:
-                    # Socket was not connected, just wait
+                if (
+                    not self._socket_writer
+                    or not self._socket_reader
+                    or self._disconnect_in_progress is not None
+                ):
+                    # Socket was not connected (or is being closed right now), just wait
                     await asyncio.sleep(1)
                     continue
 
